@@ -10,7 +10,7 @@ PKG = "network/dag"
 HARNESS = ["network/dag/zz_verif_c06_test.go"]
 
 REQUIRED = ["parse_sound", "last_member_decides", "lc_exact", "lc_exact_fails_without_guard", "admitted_sound", "admitted_prevs_clock",
-            "admitted_signature", "add_idempotent", "rejected_no_trace", "dag_inv", "concurrent_adds_serialise",
+            "admitted_signature", "add_idempotent", "rejected_no_trace", "cancelled_add_no_trace", "fact_rollback_reloads", "dag_inv", "concurrent_adds_serialise",
             "concurrent_adds_keep_invariant", "created_tx_admissible", "notified_exactly_once",
             "fact_allowed_algos", "fact_allowed_versions", "fact_header_names", "fact_parse_steps",
             "fact_signature_count_checked", "fact_lc_strict", "fact_jwk_public_only", "embedded_key_is_public", "fact_strict_framing", "accepted_bytes_are_a_jws_serialization", "fact_prev_verifier", "fact_verifier_order",
@@ -166,6 +166,8 @@ def run(ctx):
     ctx.oblige("model-driver-runs", ok, err[-500:])
     impl, model, bad = ctx.compare(impl_p, model_p)
     raw_ops = ctx.read_lines(ops_p)
+    side_p = os.path.join(out, "impl.side")
+    side = ctx.read_lines(side_p) if os.path.exists(side_p) else []
     ops = [json.loads(l) if l else {} for l in raw_ops[:len(impl)]]
 
     def hist_start(i):
@@ -239,6 +241,9 @@ def run(ctx):
 
     # ------------------------------------------------------------------ oracle 2: admission on the implementation's own observations
     prev = None          # previous observation dict within the history
+    prev_side = None     # previous IBLT/XOR digests (impl.side) within the history
+    prevless = set()     # refs of transactions without prevs offered in this history
+    n_cancel = 0
     lcs_prev = []
     docs = {}            # resolver table of the current history: (did, source ref) -> entry (last registration wins)
     n_add = n_admit = n_reject = n_readd = 0
@@ -251,6 +256,12 @@ def run(ctx):
             continue
         if kind == "new":
             docs = {}
+            prevless = set()
+        for c0 in ([op["call"]] if kind == "add" else (op.get("calls") or [])):
+            pv0 = members(c0["jws"]).get("prevs", {})
+            if pv0.get("t") == "arr" and not pv0.get("v"):
+                prevless.add(c0["jws"]["ref"][:8])
+        cur_side = side[i] if i < len(side) else None
         line = impl[i]
         if line.startswith("panic"):
             violate("C06:harness-panic", line[:200], i)
@@ -265,6 +276,10 @@ def run(ctx):
             violate("C06:count-differs-from-stored", f"tx count {o['m_n']} but {len(refs)} stored", i)
         if sum(1 for c, _ in lcs if c == "0") > 1:
             violate("C06:two-roots", "two transactions with clock 0 stored", i)
+        if sum(1 for _, r in lcs if r in prevless) > 1:
+            violate("C06:two-roots", "more than one transaction without prevs is stored (the root is not unique)", i)
+        if any(cl != "0" for cl, r in lcs if r in prevless):
+            violate("C06:admitted-with-wrong-clock", "a transaction without prevs is stored at a non-zero clock", i)
         x = 0
         for r in refs:
             x ^= int(r, 16)
@@ -287,14 +302,19 @@ def run(ctx):
             same = prev is not None and all(o.get(k) == prev.get(k) for k in ("LC", "J", "m_n", "m_lch", "m_lca", "m_head", "m_xor")) \
                 and o.get("P", "")[:len(prev.get("P", ""))] == prev.get("P", "") and o.get("E", "") == "" \
                 and o.get("PL", "").split(",")[:len([x for x in prev.get("PL", "").split(",") if x])] == [x for x in prev.get("PL", "").split(",") if x]
+            if op.get("cancel"):
+                n_cancel += 1
+            side_same = prev_side is None or cur_side is None or cur_side == prev_side
             if res != "ok":
                 n_reject += 1
                 if prev is not None and not same:
                     violate("C06:rejected-left-trace", f"Add returned {res} but the observable state changed", i)
+                if not side_same:
+                    violate("C06:rejected-left-trace-in-digests", f"Add returned {res} but the IBLT/XOR digests or their clock changed: {prev_side} -> {cur_side}", i)
             elif was:
                 n_readd += 1
-                if not same:
-                    violate("C06:readd-changed-state", "re-adding a present transaction changed state or notified", i)
+                if not same or not side_same:
+                    violate("C06:readd-changed-state", "re-adding a present transaction changed state, digests or notified", i)
             else:
                 n_admit += 1
                 jws = c["jws"]
@@ -355,15 +375,23 @@ def run(ctx):
                         violate("C06:notification-not-exactly-once", f"notifications for the admission: {ev}", i)
         if kind == "sched":
             stats["sched"] += 1
-        prev, lcs_prev = o, lcs
+            # every transaction of the burst that is stored obeys the clock rule
+            byref = {r: int(cl) for cl, r in lcs}
+            for c0 in op.get("calls") or []:
+                r8 = c0["jws"]["ref"][:8]
+                if r8 in byref:
+                    pv = [el.get("s", "")[:8].lower() for el in members(c0["jws"]).get("prevs", {}).get("v", [])]
+                    if any(p not in byref for p in pv) or byref[r8] != 1 + max([byref[p] for p in pv if p in byref], default=-1):
+                        violate("C06:admitted-with-wrong-clock", f"after the burst {r8} is stored at clock {byref[r8]} against its prevs {pv}", i)
+        prev, lcs_prev, prev_side = o, lcs, cur_side
         if kind == "new":
-            prev, lcs_prev = o, []
+            prev, lcs_prev, prev_side = o, [], cur_side
     ctx.oblige("oracle:admission-sound/no-trace/idempotent(impl)", not any(s.split(":")[1] in (
-        "rejected-left-trace", "readd-changed-state", "admission-not-exactly-one", "admitted-with-missing-prev", "admitted-with-wrong-clock",
+        "rejected-left-trace", "rejected-left-trace-in-digests", "readd-changed-state", "admission-not-exactly-one", "admitted-with-missing-prev", "admitted-with-wrong-clock",
         "second-root", "admitted-bad-signature", "admitted-unresolvable-kid", "admitted-wrong-payload", "notification-not-exactly-once", "ref-stored-twice",
         "count-differs-from-stored", "two-roots", "digest-differs-from-stored", "inconsistent-read", "reopen-differs") or
         s.startswith("C06:admitted-malformed") for s in seen_sig),
-        f"{n_add} adds: {n_admit} admitted, {n_reject} rejected, {n_readd} re-adds")
+        f"{n_add} adds: {n_admit} admitted, {n_reject} rejected ({n_cancel} with the context cancelled inside the write tx), {n_readd} re-adds")
 
     # ------------------------------------------------------------------ oracle 3: every interleaving equals a sequential order (impl only)
     groups = {}
@@ -441,5 +469,5 @@ def run(ctx):
                        "ALL interleavings of read-tx/write-tx steps (6 for 2 threads, 90 for 3) forced by a gating KVStore. distinct_nontrivial = distinct input byte strings offered")
     ctx.cov["input_distribution"] = {"ops": {k: v for k, v in sorted(stats.items())}, "mutation_classes": dict(notes.most_common(40)),
                                      "parse_unmodelled_framing": n_unmodelled, "schedules": n_sched, "schedule_scenarios": n_groups,
-                                     "adds": {"total": n_add, "admitted": n_admit, "rejected": n_reject, "re-adds": n_readd}}
+                                     "adds": {"total": n_add, "admitted": n_admit, "rejected": n_reject, "re-adds": n_readd, "context-cancelled-in-write-tx": n_cancel}}
     ctx.cov["samples"] = [impl[0][:300] if impl else "", next((impl[i][:300] for i, o in enumerate(ops) if o.get("op") == "sched"), "")]
